@@ -17,11 +17,12 @@ theorem setBuf_gprs : ∀ (l : List Region) (i : Nat) (b : HostBuf), (setBuf l i
     | zero => simp [setBuf]
     | succ n => simp [setBuf, ih]
 
-/-- What a successful tdxFwParser.parse is made of. -/
+/-- What a successful tdxFwParser.parse is made of (any image size: SectionCount is a uint32, so the
+    index is below 2^32, and a successful `int32` conversion means it is below 2^31). -/
 theorem parse_ok (o : ParserOpts) (fw : Bytes) (banks : List Gpr) (regions : List Region)
-    (hfw : fw.length < 2 ^ 36) (h : parse o fw banks = .ok regions) :
+    (h : parse o fw banks = .ok regions) :
     ∃ md st i r b, extractTDXMetadata fw = .ok md ∧ parseLoop o.measureAll fw md.sections {} = .ok st ∧
-      st.hobIndex = some i ∧ st.regions[i]? = some r ∧
+      st.hobIndex = some i ∧ i < 2 ^ 31 ∧ st.regions[i]? = some r ∧
       getTDHOBList r.gpr st.priv (unacceptedMemRanges st.priv banks) o.disableEarlyAccept = .ok b ∧
       regions = setBuf st.regions i b := by
   unfold parse at h
@@ -55,19 +56,19 @@ theorem parse_ok (o : ParserOpts) (fw : Bytes) (banks : List Gpr) (regions : Lis
               rw [hg] at h; simp only [] at h
               injection h with h
               have hi := inv.hob i hh
-              have hlen32 : 32 * md.sections.length ≤ fw.length := (extract_ok fw md hmd).2.1
+              have hcount := extract_count fw md hmd
               have hidx' : st.index = md.sections.length := by simpa using hidx
               have himod : i % 2 ^ 32 = i := Nat.mod_eq_of_lt (by omega)
-              rw [himod] at hr h
-              exact ⟨md, st, i, r, b, rfl, hp, hh, hr, hg, h.symm⟩
+              rw [himod] at hr h h31
+              exact ⟨md, st, i, r, b, rfl, hp, hh, by omega, hr, hg, h.symm⟩
 
 /-- Facts about the regions a successful parse returns: one per section, each range inside the 52-bit
     physical address space, the declared sizes adding up to at most 4 GiB. -/
 theorem parse_ok_facts (o : ParserOpts) (fw : Bytes) (banks : List Gpr) (regions : List Region)
-    (hfw : fw.length < 2 ^ 36) (h : parse o fw banks = .ok regions) :
+    (h : parse o fw banks = .ok regions) :
     (∀ r ∈ regions, r.gpr.start + r.gpr.len ≤ 2 ^ 52) ∧ (regions.map (·.gpr.len)).sum ≤ maxInitialMemory ∧
     32 * regions.length ≤ fw.length := by
-  obtain ⟨md, st, i, r, b, hmd, hp, _, _, _, hreg⟩ := parse_ok o fw banks regions hfw h
+  obtain ⟨md, st, i, r, b, hmd, hp, _, _, _, _, hreg⟩ := parse_ok o fw banks regions h
   obtain ⟨hv, hl, _⟩ := extract_ok fw md hmd
   obtain ⟨inv, hidx, hsum⟩ := (parseLoop_ok o.measureAll fw md.sections {} hv.secs pinv_init).2 st hp
   have hg := setBuf_gprs st.regions i b
@@ -129,7 +130,7 @@ theorem initAll_eq_spec (m : Bool) : ∀ (regions : List Region) (s : Bytes),
     specification's TDH.MEM.PAGE.ADD / TDH.MR.EXTEND record stream of the regions that
     ExtractMaterialGuestPhysicalRegions* returned, in order, one page at a time. -/
 theorem mrtd_eq_region_stream (H : Bytes → Bytes) (o : LaunchOptions) (fw : Bytes) (d : Bytes)
-    (hfw : fw.length < 2 ^ 36) (h : mrtd H o fw = .ok d) :
+    (h : mrtd H o fw = .ok d) :
     ∃ regions, mrtdRegions o fw = .ok regions ∧
       d = H (regions.flatMap (fun r => sectionRecs (specSectionOf o.measureAllRegions r))) := by
   unfold mrtd at h
@@ -149,10 +150,10 @@ theorem mrtd_eq_region_stream (H : Bytes → Bytes) (o : LaunchOptions) (fw : By
       have hfacts : ∀ r ∈ regions, r.gpr.start + r.gpr.len ≤ 2 ^ 52 := by
         unfold mrtdRegions extractNoUnacceptedMemory extractTDHOBBug extractDefault at hr
         split at hr
-        · exact (parse_ok_facts _ fw _ regions hfw hr).1
+        · exact (parse_ok_facts _ fw _ regions hr).1
         · split at hr
-          · exact (parse_ok_facts _ fw _ regions hfw hr).1
-          · exact (parse_ok_facts _ fw _ regions hfw hr).1
+          · exact (parse_ok_facts _ fw _ regions hr).1
+          · exact (parse_ok_facts _ fw _ regions hr).1
       rw [← h, initAll_eq_spec _ regions s hfacts hs]
 
 end GceTcb.Mrtd
